@@ -65,7 +65,14 @@ Definition mean (x : list T) : T :=
   | [] => zero O
   | _ => div O (vsum x) (ofnat (length x))
   end.
-Definition norm_inf (x : list T) : T := fold_left (maxabs O) x (zero O).
+(** NaN handling, as coded: [norm_inf] returns NaN as soon as it meets one (explicit test in
+    vecmath.rs), and Rust's [f64::max] returns the other operand when one is NaN.  A value is a
+    NaN iff it differs from itself; over the reals these branches are dead. *)
+Definition is_nan (x : T) : bool := negb (eqb O x x).
+Definition nan_value : T := div O (zero O) (zero O).
+Definition fmax (a b : T) : T := if is_nan a then b else if is_nan b then a else omax O a b.
+Definition norm_inf (x : list T) : T :=
+  if existsb is_nan x then nan_value else fold_left (maxabs O) x (zero O).
 Definition ones (n : nat) : list T := repeat (one O) n.
 
 (** CscMatrix::col_norms_no_reset: running maximum continued from [init] *)
@@ -106,7 +113,7 @@ Definition ruiz_step (S : settings) (s : lstate) : lstate :=
   let mean_col_norm_P := mean (col_norms O P1) in
   let inf_norm_q := norm_inf q1 in
   if negb (eqb O mean_col_norm_P (zero O)) && negb (eqb O inf_norm_q (zero O)) then
-    let scale_cost := omax O inf_norm_q mean_col_norm_P in
+    let scale_cost := fmax inf_norm_q mean_col_norm_P in
     let ctmp := clip (recip scale_cost) (div O (eq_min S) (lc s)) (div O (eq_max S) (lc s)) in
     mkL (scale O P1 ctmp) (vscale q1 ctmp) A1 b1 d1 e1 (mul O (lc s) ctmp)
   else
